@@ -421,7 +421,43 @@ def wl_native_refs(ctx, rng, i):
                 {"version": ver, "type": t, "property": ".".join(map(str, s_.path)), "reference_given_as": "%s object of 2.1 with id %s" % (rt, target["id"]), "output": out, "issues": issues[:3]})
 
 
+def wl_interop_ids(ctx, rng, i):
+    """interoperability=True relaxes which UUIDs an identifier may carry -- not the form of an identifier: whatever is accepted is
+    still <type>--<36 characters of hex digits and hyphens> and nothing else."""
+    import re
+    import stix2
+    ver = VERSIONS[i % 2]
+    t = ["identity", "malware", "relationship", "indicator"][(i // 2) % 4]
+    g = ObjGen(rng, ver, hostile=False, ts_max_digits=6, openvocab_custom=False)
+    o = g.make(t, "random", granular=False)
+    u = o["id"].split("--", 1)[1]
+    slot = rng.choice([k for k in o if k == "id" or (k.endswith("_ref") and isinstance(o[k], str))])
+    tt = o[slot].split("--", 1)[0]
+    name, f = rng.choice(corrupt.BAD_UUIDS + [("nil-uuid", lambda x: "00000000-0000-0000-0000-000000000000"), ("version-1", lambda x: x[:14] + "1" + x[15:]),
+                                              ("trailing-newline-after-version-1", lambda x: x[:14] + "1" + x[15:] + "\n"), ("trailing-space", lambda x: x + " "),
+                                              ("prefix-junk", lambda x: "junk" + x)])
+    oo = dict(o)
+    oo[slot] = tt + "--" + f(u)
+    for route, fn in (("parse-text", lambda: stix2.parse(json.dumps(oo), interoperability=True, version=ver)), ("constructor", lambda: cls_for(ver, t)(interoperability=True, **oo))):
+        ctx.ev()
+        ctx.count("interoperability_id_faults")
+        ctx.nontrivial("interop", ver, t, slot, name, route)
+        try:
+            with warnings.catch_warnings():
+                warnings.simplefilter("ignore")
+                out = json.loads(fn().serialize())
+        except Exception:
+            ctx.count("rejected")
+            continue
+        if not re.match(r"\A[a-z0-9-]+--[0-9a-fA-F]{8}-[0-9a-fA-F]{4}-[0-9a-fA-F]{4}-[0-9a-fA-F]{4}-[0-9a-fA-F]{12}\Z", str(out.get(slot))):
+            ctx.violation("id-form:interoperability-mode", "%s %s emitted %s = %r with interoperability=True (%s, %s)" % (ver, t, slot, out.get(slot), name, route),
+                          {"version": ver, "type": t, "route": route, "fault": name, "input": oo, "output": out})
+        else:
+            ctx.count("normalised_or_harmless")
+
+
 WORKLOADS = [
+    Workload("interoperability-ids", wl_interop_ids, quick=120, thorough=6000),
     Workload("native-references", wl_native_refs, quick=lambda: len([b for b in BASES if b[0] == "2.0"]), thorough=lambda: len([b for b in BASES if b[0] == "2.0"]) * 6),
     Workload("native-timestamps", wl_native_timestamps, quick=lambda: len(TS_SLOTS), thorough=lambda: len(TS_SLOTS) * 20),
     Workload("bases", wl_bases, quick=lambda: len(BASES) * 2, thorough=lambda: len(BASES) * 16, exhaustive=True),
